@@ -293,6 +293,10 @@ func (c *checkSchema) collectAllowedJsonTypes(node ischema.Node, ss map[string]i
 		}
 		c.foundTypeNames[typeName] = struct{}{}
 		c.collectAllowedJsonTypes(getType(typeName, c.rootSchema, ss).RootNode(), ss) // can panic
+		// Only the types on the way to the current one matter: a type reached a
+		// second time along another way (two alternatives of an "or" rule that
+		// share a type) is not a recursion.
+		delete(c.foundTypeNames, typeName)
 	}
 }
 
